@@ -1,6 +1,6 @@
 #!/bin/bash
 # Developer-side: run every claimed check (quick tier by default) on /repo itself, sequentially; summary lines only.
-cd /verif
+cd "$(dirname "$0")/.."
 TIER=${1:-quick}
 for P in $(python3 -c "import json; print(' '.join(c['property_id'] for c in json.load(open('MANIFEST.json'))['checks']))"); do
   ./check $P --tier $TIER > /tmp/runall_$P.log 2>&1; rc=$?
